@@ -19,7 +19,7 @@ RULE = ('request paths assembled from traversal-significant pieces (.., ., %2e%2
         'view on PATH_INFO, plain view with a given request.subpath) x filesystem and package-relative roots x '
         'Accept-Encoding values x content_encodings, plus all 6^4 combinations of six core pieces; non-trivial = the '
         'static view itself was reached and either answered 200/301 or the path contains a traversal-significant '
-        'piece; distinct by full case')
+        'piece; distinct by full case.  In addition exhaustive UTF-8 blocks (Lib/Utf8.decode vs traversal.decode_path_info)')
 ASSUMPTIONS = [
     'POSIX: os.sep is "/", normcase is the identity; no symbolic links inside or above the root',
     'the WSGI server percent-decodes the request path once (urllib.parse.unquote_to_bytes), as PEP 3333 servers do',
@@ -43,12 +43,14 @@ TRUSTED = [
 TECHNIQUE = ('Coq proof on a hand-written Gallina model (path pipeline + abstract file system with an access trace) + '
              'regenerated constants + extracted-model differential correspondence on a real directory tree, including '
              'the exact sequence of os.stat/open calls')
-LEVEL_TEXT = ('Machine-checked theorems for every request string, every mounting, every file system: _secure_path accepts '
-              'exactly tuples of plain NUL-free names; every path handed to the file system is the root or lies '
-              'component-wise beneath it; the response conforms to the declarative specification (designated file, '
-              'index, add-slash redirect, 404, smallest acceptable variant labelled with its encoding).  The model is '
-              'tied to the code by shape pins, regenerated constants and a differential run against the real view on '
-              'a real directory tree with sentinel files outside the root.')
+LEVEL_TEXT = ('Machine-checked theorems for every request sequence, every mounting, both kinds of root, every file system: '
+              '_secure_path accepts exactly tuples of plain NUL-free names; every path handed to the file system is the '
+              'root or lies component-wise beneath it; every response conforms to the declarative specification '
+              '(designated file, index, add-slash redirect with its Location, 404, smallest acceptable variant labelled '
+              'with its encoding); the filemap never changes an answer.  The model is tied to the code by shape pins, '
+              'regenerated constants and a differential run against the real view on a real directory tree with sentinel '
+              'files outside the root (responses and the exact os.stat/open trace); Lib/Utf8 is compared with CPython on '
+              'all 2-byte, (nearly) all 3-byte and structured 4-byte sequences.')
 LEVEL_NOTE = ('Trusted: Coq kernel; hand-written model; posixpath/UTF-8/percent models; Python harness and oracles. '
               'Which function static_view applies to request.path_info (traversal_path_info decodes a second time, '
               'split_path_info does not) and the route remainder regex are regenerated facts; C16_facts_ok requires the '
@@ -341,7 +343,27 @@ def core_cases():
     return out
 
 
+def utf8_cases(tier):
+    """Lib/Utf8 vs CPython (through traversal.decode_path_info): exhaustive blocks prefix + every suffix of length n."""
+    out = [{'mount': 'utf8', 'prefix': [b0], 'n': 1} for b0 in range(256)]                 # all 2-byte sequences
+    leads3 = range(256) if tier == 'thorough' else [0x00, 0x2f, 0x41, 0x7f] + list(range(0x80, 0x100))
+    out += [{'mount': 'utf8', 'prefix': [b0], 'n': 2} for b0 in leads3]                     # all 3-byte sequences
+    edge = [0x00, 0x7f, 0x80, 0x8f, 0x90, 0x9f, 0xa0, 0xbf, 0xc0, 0xff]
+    if tier == 'thorough':                                                                  # structured 4-byte sweep
+        for b0 in [0xf0, 0xf1, 0xf3, 0xf4, 0xf5, 0xf7, 0xf8, 0xff, 0xe0, 0xed, 0xc2, 0x7f]:
+            out += [{'mount': 'utf8', 'prefix': [b0, b1], 'n': 2} for b1 in edge]
+        for b0 in range(0xf0, 0xf5):
+            out += [{'mount': 'utf8', 'prefix': [b0, b1, b2], 'n': 1} for b1 in range(256) for b2 in edge]
+    else:
+        out += [{'mount': 'utf8', 'prefix': pre, 'n': 2} for pre in
+                ([0xf0, 0x8f], [0xf0, 0x90], [0xf0, 0xbf], [0xf4, 0x8f], [0xf4, 0x90], [0xf5, 0x80], [0xf1, 0x80], [0xed, 0xa0])]
+    return out
+
+
 def generate(rng, tier, n):
+    if n >= 4000:
+        for c in utf8_cases(tier):
+            yield c
     core = core_cases()
     if tier == 'quick' and n < 4000:
         core = rng.sample(core, max(1, n // 8))
@@ -376,8 +398,15 @@ def _requests(case):
     return list(case['pre']) + [case]
 
 
+def _is_utf8(case):
+    return isinstance(case, dict) and case.get('mount') == 'utf8'
+
+
 def valid(case):
     try:
+        if _is_utf8(case):
+            return set(case) == {'mount', 'prefix', 'n'} and case['n'] in (0, 1, 2) and len(case['prefix']) <= 4 \
+                and all(isinstance(b, int) and 0 <= b < 256 for b in case['prefix'])
         if case['mount'] not in MOUNTS or case['root'] not in ROOTS:
             return False
         if not isinstance(case['pre'], list) or len(case['pre']) > 3:
@@ -437,6 +466,8 @@ def _docroot(case):
 def to_wire(case):
     if not _state:
         setup('quick')
+    if _is_utf8(case):
+        return [1, bytes(case['prefix']), case['n']]
     is_pkg, docroot = _docroot(case)
     cfg = [MOUNTS.index(case['mount']), 'static', is_pkg, docroot, _state['modpath'], case['index'], list(case['encs']),
            _state['encmap'], 'http://localhost', _state['safe'], case['reload']]
@@ -448,6 +479,10 @@ def to_wire(case):
 
 
 def from_wire(case, raw):
+    if _is_utf8(case):
+        if raw == [['bad']]:
+            return {'model': ['MODEL-BAD', raw], 'spec': None}
+        return {'model': ['utf8', [list(x) for x in raw]], 'spec': ['utf8']}
     if raw == [['bad']] or len(raw) != 3:
         return {'model': ['MODEL-BAD', raw], 'spec': None}
     per, sec, sec_spec = raw
@@ -573,9 +608,27 @@ def _run_one(kind, app, mount, r):
     return [resp, tr.log]
 
 
+def _run_utf8(case):
+    import itertools
+    from pyramid.traversal import decode_path_info
+    pre = ''.join(chr(b) for b in case['prefix'])
+    out = []
+    for suf in itertools.product(range(256), repeat=case['n']):
+        ssuf = ''.join(map(chr, suf))
+        wsgi = pre + ssuf
+        try:
+            text = decode_path_info(wsgi)
+        except UnicodeDecodeError:
+            continue
+        out.append([ssuf, text, 1 if text.encode('utf-8') == wsgi.encode('latin-1') else 0])
+    return ['utf8', out]
+
+
 def run_impl(case):
     if not _state:
         setup('quick')
+    if _is_utf8(case):
+        return _run_utf8(case)
     kind, app = _get_app(case)               # a fresh view instance (empty filemap) per case
     outs = [_run_one(kind, app, case['mount'], r) for r in _requests(case)]
     try:
@@ -652,6 +705,8 @@ def _judge_one(case, r, out, sp):
 def spec_holds(case, obs, spec):
     if spec is None:
         return None
+    if _is_utf8(case):          # strictness: whatever is accepted re-encodes to the bytes it came from
+        return isinstance(obs[1], list) and all(x[2] == 1 for x in obs[1])
     per_spec, sec_spec = spec
     outs, sec = obs
     if len(outs) != len(per_spec):
@@ -675,7 +730,7 @@ def _nonascii(r):
 
 def classify(case, obs, spec):
     """A spec failure is a known finding only if every failing request of the case is exactly that finding."""
-    if spec is None:
+    if spec is None or _is_utf8(case):
         return None
     per_spec, sec_spec = spec
     outs, sec = obs
@@ -709,6 +764,8 @@ def _reached(obs):
 
 
 def nontrivial(case, obs):
+    if _is_utf8(case):
+        return False
     if not isinstance(obs[0], list) or not obs[0] or not isinstance(obs[0][-1], list):
         return False
     r = obs[0][-1][0]
@@ -721,6 +778,10 @@ def nontrivial(case, obs):
 
 
 def kinds(case, obs):
+    if _is_utf8(case):
+        n = len(obs[1]) if isinstance(obs[1], list) else -1
+        return ['utf8-block-len%d' % (len(case['prefix']) + case['n']),
+                'utf8-accepted-' + ('none' if n == 0 else 'some' if n > 0 else 'error')]
     if not isinstance(obs[0], list) or not obs[0] or not isinstance(obs[0][-1], list):
         return ['harness-exc']
     r, trace = obs[0][-1]
@@ -763,6 +824,9 @@ def describe(case):
 
 
 def explain(item):
+    if _is_utf8(item['case']):
+        return {'note': 'Lib/Utf8.decode vs CPython (traversal.decode_path_info) on every sequence prefix + suffix of length n; '
+                        'entries = [suffix, decoded text, re-encodes to the same bytes]'}
     return {'request_path': item['case'].get('path'), 'earlier_requests': item['case'].get('pre'), 'mount': item['case'].get('mount'), 'root': item['case'].get('root'),
             'world': BASE, 'note': 'observation = [[response, ordered os.stat(0)/open(1) trace] per request, _secure_path(subpath)]'}
 
